@@ -73,7 +73,7 @@ open EntrySetSim.Ex
 example : ∃ fr, (setSimJoinPy .jaccard exArgs {} exToks 4).result = .ok fr ∧
     (∃ row ∈ fr.rows, rowKeys row = (keyOf exL "id" exLe, keyOf exR "id" exRe)) ∧
     ¬ ∃ row ∈ fr.rows, rowKeys row = (keyOf exL "id" exLs, keyOf exR "id" exRe) := by
-  obtain ⟨fr, hres⟩ := EntrySetSim.total .jaccard exArgs {} exToks 4 exL exR exValid
+  obtain ⟨fr, hres⟩ := EntrySetSim.total .jaccard exArgs {} exToks 4 exL exR exValid (by decide +kernel)
   exact ⟨fr, hres,
     (setsim_both_empty_iff .jaccard exArgs {} exToks 4 exL exR exValid exScope fr hres exLe exLe_mem exRe exRe_mem
       exLe_present exRe_present exEmpty_both).2 rfl,
